@@ -102,7 +102,7 @@ impl Property for Spellings {
     }
     fn budget(&self, tier: Tier) -> Budget {
         Budget {
-            cases: tier.pick(300_000, 20_000_000),
+            cases: tier.pick(1_200_000, 20_000_000),
             tape_len: 2500,
         }
     }
@@ -228,7 +228,7 @@ impl Property for Ambiguity {
     }
     fn budget(&self, tier: Tier) -> Budget {
         Budget {
-            cases: tier.pick(150_000, 5_000_000),
+            cases: tier.pick(500_000, 5_000_000),
             tape_len: 1500,
         }
     }
